@@ -148,7 +148,7 @@ func build(t *rapid.T, data []byte) *subject {
 		s.snapshot = append([]byte(nil), s.backing...)
 		s.n = len(data)
 		s.borrowed = spare > 0 && len(data) > 0
-		b := s.backing[:len(data):len(data)+spare]
+		b := s.backing[: len(data) : len(data)+spare]
 		if ctor == "reader-bytes" {
 			s.c = mkr(&bytesReader{b})
 		} else {
